@@ -127,15 +127,16 @@ def dependencies(prop, info, R):
     for f in info.functions:
         by_name.setdefault(f['key'].rsplit('::', 1)[-1], []).append(f)
     calls = {f['key']: f.get('calls', []) for f in info.functions}
+    types = set(f['key'].rsplit('::', 1)[0].split(' for ')[-1] for f in info.functions if '::' in f['key'])
     work = list(deps)
     while work:
         k = work.pop()
         my_type = k.rsplit('::', 1)[0].split(' for ')[-1]
         for name in calls.get(k, []):
-            same_type_only = name.startswith('Self::')
-            name = name[len('Self::'):] if same_type_only else name
+            qual, _, name = name.rpartition('::')
+            only_type = my_type if qual == 'Self' else (qual if qual in types else None)
             for g in by_name.get(name, []):
-                if same_type_only and g['key'].rsplit('::', 1)[0].split(' for ')[-1] != my_type:
+                if only_type and g['key'].rsplit('::', 1)[0].split(' for ')[-1] != only_type:
                     continue
                 if name == 'map_keycode' and 'AnyLayout' in g['key'] and PROPS[prop].get('denotations') not in ('wrappers', 'all'):
                     continue   # the wrappers are only called by code that is generic in the layout
@@ -219,7 +220,24 @@ def offending_functions(tool, info):
             fr = verus.enclosing(info.fn_ranges, a)
             if fr and not (r and r[2] in ('lemma', 'ghost')):
                 keys.add(fr[2])
+            elif not fr and not r:
+                c = const_item_at(info, a)
+                if c:
+                    keys.add('const ' + c)
     return keys
+
+
+def const_item_at(info, line):
+    """name of the const / static item of the crate whose initialiser contains generated line `line` (None if there is none)"""
+    lines = info.text.split('\n')
+    for ln in range(line, max(line - 12, 0), -1):
+        t = lines[ln - 1] if 0 < ln <= len(lines) else ''
+        m = re.match(r'^\s*(?:#\[[^\]]*\]\s*)*(?:pub(?:\([^)]*\))?\s+)?(?:const|static)\s+(\w+)\s*:', t)
+        if m:
+            return m.group(1)
+        if ln != line and t.rstrip().endswith((';', '}')):
+            return None
+    return None
 
 
 def write_replay(prop, oid, ob, info, res, failure=None, extra=None):
